@@ -133,19 +133,28 @@ def run(rep, tier):
             return ("DIAG", True)
         return None
     table, und = {}, None
-    for zero, diag, want in ((True, True, "typeOpen"), (True, False, "typeOpen"), (False, True, "typeOrthorhombic"), (False, False, "typeTriclinic")):
-        A = {"ZERO": zero, "DIAG": diag}
+    # representatives of the three classes (the entries are touched through the two predicates, or through comparisons the numbers decide)
+    Rq = sp.Rational
+    reps = [("the zero box", sp.zeros(3, 3), "typeOpen"),
+            ("a diagonal box", sp.diag(1, 2, 3), "typeOrthorhombic"),
+            ("a box with one off-diagonal element", sp.Matrix([[1, Rq(1, 2), 0], [0, 2, 0], [0, 0, 3]]), "typeTriclinic"),
+            ("a box whose off-diagonal elements sum to zero", sp.Matrix([[1, Rq(1, 2), 0], [-Rq(1, 2), 2, 0], [0, 0, 3]]), "typeTriclinic"),
+            ("a box with zero diagonal and one off-diagonal element", sp.Matrix([[0, 0, 1], [0, 0, 0], [0, 0, 0]]), "typeTriclinic"),
+            ("a box with tiny off-diagonal elements", sp.Matrix([[1, Rq(1, 10 ** 6), 0], [0, 2, 0], [0, 0, 3]]), "typeTriclinic")]
+    for label, Mx, want in reps:
+        A = {"ZERO": Mx == sp.zeros(3, 3), "DIAG": all(Mx[i_, j_] == 0 for i_ in range(3) for j_ in range(3) if i_ != j_)}
+        sub = {pbox[i_, j_]: Mx[i_, j_] for i_ in range(3) for j_ in range(3)}
         got = None
         for val, guards, _ in fo.returns:
-            ts = [decide(g, None, A, box_orc, cds) for g, _p, _n in guards]
+            ts = [decide(g, sub, A, box_orc, cds) for g, _p, _n in guards]
             if any(t_ is None for t_ in ts):
-                und = "cannot decide the path condition %s" % [fo.cond_str(g)[:80] for g, _p, _n in guards]
+                und = "cannot decide the path condition %s for %s" % ([fo.cond_str(g)[:80] for g, _p, _n in guards], label)
                 break
             if all(t_ == p_ for t_, (_g, p_, _n) in zip(ts, guards)):
-                v_ = resolve_ite(val, lambda cs: decide(cds[cs], None, A, box_orc, cds) if cs in cds else None) if hasattr(val, "args") else val
+                v_ = resolve_ite(val, lambda cs: decide(cds[cs], sub, A, box_orc, cds) if cs in cds else None) if hasattr(val, "args") else val
                 got = str(v_).split("::")[-1]
                 break
-        table["%s%s" % ("zero box" if zero else "non-zero box", "" if zero else (", off-diagonal zero" if diag else ", off-diagonal non-zero"))] = (got, want)
+        table[label] = (got, want)
     if und:
         raise AnalysisBroken("autoDetectBoxType: " + und)
     rep.check(all(g_ == w_ for g_, w_ in table.values()), "R2.4", "autodetect", "zero->open, off-diagonal zero->orthorhombic, else triclinic",
